@@ -818,7 +818,7 @@ extern const BaseRRII baseRRII[2];
 extern const BaseRRR baseRRR[26];
 extern const BaseRRRR baseRRRR[6];
 extern const BaseShift baseShift[8];
-extern const BaseStx baseStx[3];
+extern const BaseStx baseStx[6];
 extern const BaseStxp baseStxp[2];
 extern const BaseTst baseTst[1];
 extern const FSimdPair fSimdPair[5];
